@@ -177,6 +177,12 @@ func genInputs(r *Rng, s *GSpec, tier string, withErrors bool) [][]int {
 	if nt <= 3 {
 		maxLen++
 	}
+	if nt > 5 {
+		maxLen = 2
+	}
+	if nt > 12 {
+		maxLen = 1
+	}
 	lo := 0
 	if withErrors {
 		lo = -1
@@ -251,6 +257,42 @@ func init() {
 		}
 		var cases []*lrCase
 		attempt := 0
+		if os.Getenv("VERIF_LRGEN_NOCURATED") == "" {
+			// curated grammars first (shapes that exposed defects before)
+			var specs []*GSpec
+			var names, loxs, gos []string
+			for i, txt := range curatedGrammars {
+				for wb := 0; wb < 2; wb++ {
+					if c.Tier != "thorough" && (i+wb+int(c.Seed))%2 == 1 {
+						continue // quick tier: each grammar in one of the two variants, alternating with the seed
+					}
+					s := ParseGSpec(txt)
+					s.WithBounds = wb == 1
+					name := fmt.Sprintf("c%03d_%d", i, wb)
+					specs = append(specs, s)
+					names = append(names, name)
+					loxs = append(loxs, s.Lox())
+					gos = append(gos, s.GoSource(name))
+				}
+			}
+			pkgs := GenerateAll(root, names, loxs, gos, false)
+			for i, p := range pkgs {
+				if p.OK {
+					c.Count("curated-accepted")
+					cases = append(cases, &lrCase{spec: specs[i], pkg: p})
+				} else {
+					c.Count("curated-rejected")
+					flat := strings.ReplaceAll(strings.TrimSpace(p.Lox), "\n", " ⏎ ")
+					if p.Panic != "" {
+						c.EmitO("# curated grammar "+flat, "panic", "C12: generator panicked: "+p.Panic)
+					} else if !strings.Contains(p.Diag, "grammar has conflicts") {
+						c.EmitO("# curated grammar "+flat, "rejected", "C04,C01: conflict-free curated grammar rejected: "+strings.ReplaceAll(strings.TrimSpace(p.Diag), "\n", " ⏎ ")+" | grammar: "+flat)
+					}
+					os.RemoveAll(p.Dir)
+				}
+			}
+			want += len(cases)
+		}
 		for len(cases) < want && attempt < want*12 {
 			batch := want * 2
 			var specs []*GSpec
